@@ -238,7 +238,10 @@ class Engine(ExprMixin, CallMixin):
             if isinstance(v, SLit):
                 if ty is None:
                     raise Unsupported('list/dict display bound to untyped local %s (line %d)' % (tgt.id, tgt.lineno))
-                v = self.alloc_literal(s, v, ty.arg)
+                if ty.kind == 'val':      # declared opaque: a container whose content the contract does not speak about
+                    v = SVal(s.fresh.const('opaque_' + tgt.id, Val))
+                else:
+                    v = self.alloc_literal(s, v, ty.arg)
             s.locals[tgt.id] = v
             return [('next', None, s)]
         if isinstance(tgt, (ast.Tuple, ast.List)):
@@ -503,6 +506,20 @@ class Engine(ExprMixin, CallMixin):
         self.loop_ord[id(con)] = self.loop_ord.get(id(con), -1)
         if con is None:
             return None
+        # loop contracts are keyed by the loop header text (robust against reordering) or by ordinal
+        try:
+            if isinstance(node, ast.For):
+                tgt = ast.unparse(node.target)
+                if isinstance(node.target, ast.Tuple):
+                    tgt = tgt.strip('()')
+                header = 'for %s in %s' % (tgt, ast.unparse(node.iter))
+            else:
+                header = 'while %s' % ast.unparse(node.test)
+        except Exception:
+            header = ''
+        for k, v in con.loops.items():
+            if isinstance(k, str) and header.startswith(k):
+                return v
         key = getattr(node, '_pyvc_ord', None)
         return con.loops.get(key)
 
@@ -688,6 +705,28 @@ class Engine(ExprMixin, CallMixin):
         for bs in body_states:
             bs.note('loop@%d body' % line)
             for ctrl, val, s2 in self.exec_block(node.body, bs):
+                # loop frame: whatever the loop contract does not list as modified must really be left alone by the body
+                # (otherwise the state after the loop, which keeps those arrays, would ignore the body's effect)
+                if ctrl in ('next', 'continue', 'break'):
+                    hk = set(heap_keys)
+                    for key, arr in s2.heap.items():
+                        if key in hk:
+                            continue
+                        before = h.heap.get(key)
+                        if before is None:
+                            before = self.base_heap.get(key)
+                        if before is None or arr is before or z3.eq(arr, before):
+                            continue
+                        self.oblige('frame', 'loop@%d frame: %s.%s is not modified by the body' % (line, key[0], key[1]), s2,
+                                    arr == before, node)
+                    listed = set(spec.ghost) | {g for g in s2.ghost if g.startswith('out_') or g.startswith('$')}
+                    for g, term in s2.ghost.items():
+                        if g in listed or g not in h.ghost:
+                            continue
+                        if term is h.ghost[g] or z3.eq(term, h.ghost[g]):
+                            continue
+                        self.oblige('frame', 'loop@%d frame: ghost %s is not modified by the body' % (line, g), s2,
+                                    term == h.ghost[g], node)
                 if ctrl in ('next', 'continue'):
                     for lab, b in inv_at(s2, i + 1, s0):
                         self.oblige('loop-pres', 'loop@%d preserves: %s' % (line, lab), s2, b, node, inductive=True)
